@@ -244,3 +244,64 @@ Proof.
   cbn [is_nil andb negb requires_names_mod run_gen g_res g_del g_used g_incr should_set_watched is_wildcard never_remove].
   eexists. eexists. eexists. split; [reflexivity|]. cbn [dr_ty dr_res]. repeat split.
 Qed.
+
+(* ------------------------------------------------------------------ ztunnel workload Authorization *)
+
+Lemma push_delta_fresh_rbac W st t Q wc dunsub n :
+  requires_names_mod t = false -> never_remove t = false ->
+  st t = Some (mkWr Q wc 0 0 false 0) ->
+  exists st',
+    push_delta_xds (rbac_gen W) st t Q dunsub [] n =
+    (Some (mkDResp t (W t) (diff Q (rnames (W t))) n), st').
+Proof.
+  intros Hm Hr Hs. unfold push_delta_xds. rewrite Hs, Hm, Hr. cbn [names wildcard negb andb].
+  rewrite andb_true_r.
+  assert (Hwn : (if negb (is_nil Q && is_nil dunsub) then Q else Q) = Q) by (destruct (negb _); reflexivity).
+  rewrite Hwn. cbn [rbac_gen g_res g_del g_used g_incr negb].
+  eexists. reflexivity.
+Qed.
+
+(* a delta-native generator that reports removed = w.ResourceNames - existing (the real
+   WorkloadRBACGenerator on a Forced request), on a type that is NOT generator-managed: the
+   retained names reach the generator through Delta.Subscribed *)
+Theorem resync_delta_rbac W st (r : dreq) (M0 : cmap) n1 n2 :
+  let t := d_ty r in
+  st t = None -> d_err r = None ->
+  requires_names_mod t = false -> never_remove t = false -> ty_eqb t CDS = false ->
+  d_init r = rnames M0 ->
+  (forall x, In x (rnames M0) -> ~ In x (d_unsub r) /\ x <> star) ->
+  exists d st',
+    process_delta_request (rbac_gen W) st r M0 n1 n2 = ([d], st') /\
+    dr_ty d = t /\
+    map_eq (apply_delta M0 d) (W t) /\
+    (forall x, In x (rnames M0) -> lookup (W t) x = None -> In x (dr_removed d)).
+Proof.
+  intros t Hs He Hm Hr Hc Hi Hcons. unfold process_delta_request.
+  rewrite (srd_fresh st r Hs He Hm). fold t. fold (subscribed_of r).
+  set (Q := subscribed_of r).
+  set (st1 := upd st t _).
+  assert (Hst1 : st1 t = Some (mkWr Q (snd (fst (delta_watched_resources [] r))) 0 0 false 0))
+    by (unfold st1; rewrite upd_same; reflexivity).
+  destruct (push_delta_fresh_rbac W st1 t Q _ (del star (norm (d_unsub r))) n1 Hm Hr Hst1) as [st2 Hp].
+  rewrite Hm. rewrite Hp. rewrite Hc. cbn [olist].
+  assert (HM0 : forall x, In x (rnames M0) -> In x Q).
+  { intros x Hx. apply subscribed_spec. destruct (Hcons x Hx) as [H1 H2]. rewrite Hi. tauto. }
+  eexists. eexists. split; [reflexivity|]. cbn [dr_ty dr_removed]. repeat split.
+  - apply apply_delta_resync. exact HM0.
+  - intros x Hx Hl. apply In_diff. split; [auto|]. apply lookup_none. exact Hl.
+Qed.
+
+Corollary resync_authz W st (r : dreq) (M0 : cmap) n1 n2 :
+  d_ty r = AUTHZ -> st AUTHZ = None -> d_err r = None ->
+  d_init r = rnames M0 ->
+  (forall x, In x (rnames M0) -> ~ In x (d_unsub r) /\ x <> star) ->
+  exists d st',
+    process_delta_request (rbac_gen W) st r M0 n1 n2 = ([d], st') /\
+    dr_ty d = AUTHZ /\
+    map_eq (apply_delta M0 d) (W AUTHZ) /\
+    (forall x, In x (rnames M0) -> lookup (W AUTHZ) x = None -> In x (dr_removed d)).
+Proof.
+  intros Ht Hs He Hi Hc.
+  pose proof (resync_delta_rbac W st r M0 n1 n2) as H. cbv zeta in H. rewrite Ht in H.
+  apply H; auto.
+Qed.
